@@ -1,5 +1,85 @@
-(* Wire entry points of the C11 model (stub until the model is built). *)
-From Coq Require Import ZArith List.
-From SG Require Import Base.Sx.
+(* Wire entry points of the C11 model (Romberg extrapolation grids). *)
+From Coq Require Import ZArith List Bool QArith Qcanon.
+From SG Require Import Base.Sx Base.QcUtil Model.Romberg.
+Import ListNotations.
 Open Scope Z_scope.
-Definition entry_C11 (sub : Z) (a : sx) : sx := sx_err 0.
+
+Definition get_nat (s : sx) : option nat :=
+  match s with Zv z => if z <? 0 then None else Some (Z.to_nat z) | _ => None end.
+Definition get_Lnat (s : sx) : option (list nat) :=
+  match s with Lv l => opt_all (map get_nat l) | _ => None end.
+Definition of_Lnat (l : list nat) : sx := Lv (map (fun n => Zv (Z.of_nat n)) l).
+
+Definition dec_grouping (z : Z) : option grouping :=
+  match z with 1 => Some G_Unit | 2 => Some G_Grouped | 3 => Some G_Optimized | _ => None end.
+Definition dec_slice_version (z : Z) : option slice_version :=
+  match z with 1 => Some SV_Romberg | 2 => Some SV_Trapezoid | _ => None end.
+Definition dec_container_version (z : Z) : option container_version :=
+  match z with 1 => Some CV_Default | 4 => Some CV_Simpson | _ => None end.
+
+Definition of_pairs (l : list (Qc * Qc)) : sx := Lv (map (fun p => Lv [of_Qc (fst p); of_Qc (snd p)]) l).
+
+Definition opt_sx (o : option sx) : sx := match o with Some s => s | None => sx_err 1 end.
+
+(* sub 0: (grouping slice_version container_version force grid levels) -> (grid levels container_sizes weights dict_keys) | err 1 (assert)
+   sub 1: (grid levels) -> (balanced_weights keys_in_grid_checker) | err 1
+   sub 2: (grid levels) -> ((grid levels) (full_grid full_levels)) | err 1      GridBinaryTree
+   sub 3: (a b version m) -> (boundary (inner_1..inner_m) (c_m0..c_mm))          RombergWeightFactory
+   sub 4: (grid levels) -> support sequences of all slices (no asserts) *)
+Definition entry_C11 (sub : Z) (a : sx) : sx :=
+  match sub, a with
+  | 0, Lv [Zv g; Zv sv; Zv cv; f; grid; levels] =>
+    match dec_grouping g, dec_slice_version sv, dec_container_version cv, get_bool f, get_LQc grid, get_Lnat levels with
+    | Some g, Some sv, Some cv, Some f, Some grid, Some levels =>
+      match extrapolation_grid g sv cv f grid levels with
+      | Some r => Lv [of_LQc (er_grid r); of_Lnat (er_levels r); of_Lnat (er_container_sizes r); of_LQc (er_weights r);
+                      of_LQc (map fst (er_dict r))]
+      | None => sx_err 1
+      end
+    | _, _, _, _, _, _ => sx_err 2
+    end
+  | 1, Lv [grid; levels] =>
+    match get_LQc grid, get_Lnat levels with
+    | Some grid, Some levels =>
+      match balanced_weights grid levels, balanced_dict grid levels with
+      | Some w, Some d => Lv [of_LQc w; sx_bool (keys_in_grid d grid)]
+      | _, _ => sx_err 1
+      end
+    | _, _ => sx_err 2
+    end
+  | 2, Lv [grid; levels] =>
+    match get_LQc grid, get_Lnat levels with
+    | Some grid, Some levels =>
+      match init_tree grid levels with
+      | Some t =>
+        let a := nthQ grid 0 in let b := nthQ grid (length grid - 1) in
+        let g0 := tree_grid a b t in let g1 := tree_grid a b (force_full t) in
+        Lv [Lv [of_LQc (fst g0); of_Lnat (snd g0)]; Lv [of_LQc (fst g1); of_Lnat (snd g1)]]
+      | None => sx_err 1
+      end
+    | _, _ => sx_err 2
+    end
+  | 3, Lv [qa; qb; Zv version; m] =>
+    match get_Qc qa, get_Qc qb, get_nat m with
+    | Some a, Some b, Some m =>
+      match version with
+      | 3 => Lv [of_Qc (simpson_boundary_weight a b m);
+                 Lv (map (fun l => opt_sx (option_map of_Qc (simpson_inner_weight a b l m))) (seq 1 m));
+                 of_LQc (map (romberg_coefficient_from simpson_min_level a b 3 m) (seq 0 (S m)))]
+      | 1 | 2 =>
+        let e := match version with 1 => 2%nat | _ => 1%nat end in
+        Lv [of_Qc (trap_boundary_weight a b e m);
+            Lv (map (fun l => opt_sx (option_map of_Qc (trap_inner_weight a b e l m))) (seq 1 m));
+            of_LQc (map (romberg_coefficient a b e m) (seq 0 (S m)))]
+      | _ => sx_err 2
+      end
+    | _, _, _ => sx_err 2
+    end
+  | 4, Lv [grid; levels] =>
+    match get_LQc grid, get_Lnat levels with
+    | Some grid, Some levels =>
+      Lv (map (fun i => of_pairs (support_sequence grid levels i)) (seq 0 (length grid - 1)))
+    | _, _ => sx_err 2
+    end
+  | _, _ => sx_err 0
+  end.
